@@ -188,3 +188,52 @@ Proof.
   intros op a m s d a' m' s' d' off E H. unfold restore_spilled in H. rewrite E in H. inversion H; subst.
   repeat split.
 Qed.
+
+(* ---- release_dead_spills ---- *)
+Lemma lookup_of_in : forall d x o, NoDup (map fst d) -> In (x, o) d -> sp_lookup d x = Some o.
+Proof.
+  induction d as [|[y v] r IH]; intros x o N H; simpl in *; [contradiction|].
+  inversion N; subst. destruct H as [H|H].
+  - inversion H; subst. rewrite Z.eqb_refl. reflexivity.
+  - destruct (Z.eqb_spec y x).
+    + subst. exfalso. apply H2. apply (in_map fst) in H. exact H.
+    + apply IH; assumption.
+Qed.
+Lemma in_remove_other : forall d x y v, y <> x -> In (y, v) d -> In (y, v) (sp_remove d x).
+Proof.
+  induction d as [|[z w] r IH]; intros x y v Hne H; simpl in *; [contradiction|].
+  destruct (Z.eqb_spec z x).
+  - destruct H as [H|H]; [inversion H; subst; contradiction|exact H].
+  - destruct H as [H|H]; [left; exact H|right; apply IH; assumption].
+Qed.
+
+Lemma release_fold_keeps_live : forall live l s d,
+  live_inv s d -> NoDup (map fst l) -> (forall p, In p l -> In p d) ->
+  let r := fold_left (fun sd p =>
+      if is_var (fst p) && py_in (fst p) live then sd
+      else (free_slots false (fst sd) [snd p], sp_remove (snd sd) (fst p))) l (s, d) in
+  live_inv (fst r) (snd r).
+Proof.
+  induction l as [|[x o] l IH]; intros s d L N Hin; simpl; [exact L|].
+  inversion N; subst.
+  destruct (is_var x && py_in x live).
+  - apply IH; auto. intros p Hp. apply Hin. right. exact Hp.
+  - simpl.
+    assert (Hxo : In (x, o) d) by (apply Hin; left; reflexivity).
+    assert (El : sp_lookup d x = Some o) by (apply lookup_of_in; [exact (proj1 (proj2 L))|exact Hxo]).
+    assert (ER : restore_spilled false x [] [] s d = Ok ([] ++ [APush o; AMload], st_push [] x, free_slots false s [o], sp_remove d x)).
+    { unfold restore_spilled. rewrite El. reflexivity. }
+    apply IH.
+    + exact (restore_keeps_live_thm x [] [] s d _ _ _ _ L ER).
+    + assumption.
+    + intros [y v] Hp. apply in_remove_other.
+      * intro E. subst y. apply H1. apply (in_map fst) in Hp. exact Hp.
+      * apply Hin. right. exact Hp.
+Qed.
+
+Theorem release_dead_keeps_live_thm : forall live s d,
+  live_inv s d -> live_inv (fst (release_dead live s d)) (snd (release_dead live s d)).
+Proof.
+  intros live s d L. unfold release_dead. apply release_fold_keeps_live; auto.
+  exact (proj1 (proj2 L)).
+Qed.
